@@ -295,11 +295,17 @@ def run_check(prop_cls, tier, seed, replay=None):
     # clauses named KF_* are known-finding classifiers evaluated by TLC: a "rejection" of KF_x on a
     # record means the record matches classifier x (it is not a violation by itself)
     kf_hits = {}
+    drift = {}
     for fi, li, clause in rejected:
         if clause.startswith("KF_"):
             kf_hits.setdefault((fi, li), []).append(clause)
+        elif clause.startswith("Drift_"):
+            # bitwise disagreement between the code and the implementation-shaped (L2) model: reported as
+            # model drift in the evidence, never a verdict (DESIGN 2.7-2)
+            drift[clause] = drift.get(clause, 0) + 1
+    prop.notes["model_drift"] = drift
     for fi, li, clause in rejected:
-        if clause.startswith("KF_"):
+        if clause.startswith("KF_") or clause.startswith("Drift_"):
             continue
         rec = get_rec(fi, li)
         if (fi, li) in kf_hits:
